@@ -1,6 +1,10 @@
 use crate::runner::{Ctx, Property};
 
 pub mod c01;
+pub mod c18;
+pub mod c06;
+pub mod c05;
+pub mod c02;
 pub mod c03;
 pub mod c14;
 pub mod c15;
@@ -12,6 +16,10 @@ pub mod c20;
 pub fn all(ctx: &Ctx) -> Vec<Property> {
     vec![
         c01::property(ctx),
+        c18::property(ctx),
+        c06::property(ctx),
+        c05::property(ctx),
+        c02::property(ctx),
         c03::property(ctx),
         c14::property(ctx),
         c15::property(ctx),
